@@ -159,9 +159,12 @@ func (c *mtastsPolicy) Close() error {
 }
 
 func (c *mtastsDelivery) PrepareDomain(ctx context.Context, domain string) {
-	c.policyFut = future.New()
+	// The goroutine sets the future it was started for: PrepareDomain is called
+	// again for the next recipient domain and replaces c.policyFut.
+	policyFut := future.New()
+	c.policyFut = policyFut
 	go func() {
-		c.policyFut.Set(c.c.mtastsGet(ctx, domain))
+		policyFut.Set(c.c.mtastsGet(ctx, domain))
 	}()
 }
 
